@@ -83,7 +83,8 @@ def check_image(ctx, img_path, n, flav, known=None, label="mkimage", meta=None):
     for (p, kind, f) in dec["tree"]:
         dtree[tuple(p.split("/"))] = (kind, f)
     ps = lambda p: "/".join(p) if p else "-"
-    L = ["loaddev %s %s" % ("mem" if n in (1760, 3520) else "file", img_path), "mountdev 1", "mount 0 1", "list - 0 1"]
+    as_file = bool(meta and meta.get("extra_cylinders"))
+    L = ["loaddev %s %s" % ("mem" if n in (1760, 3520) and not as_file else "file", img_path), "mountdev 1", "mount 0 1", "list - 0 1"]
     li_hash = len(L)
     if flav & 4:
         L.append("list - 1 1")
@@ -222,9 +223,13 @@ def run(ctx):
         except IndexError:
             continue        # tree does not fit
         path = os.path.join(ctx.work, "c06_%d.img" % i)
+        # DD floppy dumps made with 81..83 cylinders (a common habit of disk imagers; the library classifies them as DD floppies):
+        # the volume is the usual 80-cylinder one, the extra cylinders hold whatever the imager read
+        extra = rng.choice([0, 0, 1, 2, 3]) if n == 1760 else 0
         with open(path, "wb") as f:
             f.write(data)
-        jobs.append((path, n, flav, flatten(tree), {"flavour": flav, "blocks": n, "policy": pol, "entries": len(flatten(tree))}))
+            f.write(bytes(rng.randrange(256) for _ in range(512)) * (22 * extra))
+        jobs.append((path, n, flav, flatten(tree), {"flavour": flav, "blocks": n, "policy": pol, "entries": len(flatten(tree)), "extra_cylinders": extra}))
         if len(ctx.samples) < 2:
             ctx.sample({"flavour": flav, "blocks": n, "policy": pol, "names": [hexs(k) for k in tree]})
 
